@@ -44,6 +44,14 @@ P = {
     technique="robustness monitors on random/mutated/attack inputs: captured recover() log lines, events-after-error, tracking allocators for carry-over and body bounds, framing-attack corpus, CPU-time hang detector",
     text="Feeds random bytes, mutated valid messages and a framing-attack corpus in random segmentations under several ReadLimit/MaxHTTPBodySize settings; no recovered panic, nothing after the first error, retained bytes and body bytes within the configured bounds, malformed framing never yields a message.",
     note=TB),
+ "C09": dict(level="exploration", ref="4/C09",
+    technique="model-based differential monitor: generated handler programs run under the real ServerProcessor/Response in memory, wire bytes decoded by net/http.ReadResponse and compared with a model of the program; failing programs are minimised; guard allocator active",
+    text="Handler programs over header settings, WriteHeader (registered and unregistered codes), Write/WriteString/ReadFrom (plain reader, LimitedReader over *os.File, bare *os.File), Flush and late trailer values, for HTTP/1.0 and 1.1, keep-alive and close, with totals placed at 65536-h-{2,1,0}, 65536+-1, 2x65536+-1 and up to 300 KiB; the wire must decode to exactly one response equal to the model, with consistent framing, and every successful Write must return len(input).",
+    note=TB + " net/http.ReadResponse is the trusted decoder; programs whose model is ill-defined (Content-Length != bytes written, 204/304 with body, header mutation after commit) are unasserted and counted."),
+ "C11": dict(level="exploration", ref="4/C11",
+    technique="sanitizer-style guard allocator (internal/guardalloc: shadow state per never-recycled region, poison on free, quarantine sweeps, liveness checks on everything handed to the harness; thorough adds an mmap/mprotect(PROT_NONE) fault mode) installed as DefaultMemPool and BodyAllocator under the C09 programs, HTTP request workloads and in-memory WebSocket workloads",
+    text="Every Malloc/Append/Realloc/Free the HTTP and WebSocket layers perform goes through an allocator that never recycles memory and knows each region's state: double free, append/realloc after free, write after free (poison sweep), freed buffers handed to the connection or to handlers, and - in fault mode - any read or write after free as a hardware fault. Leaks are counted, never alarmed.",
+    note=TB + " Real-socket paths (write-queue release on close racing flush, TLS allocator, blocking-mode send queue) are not driven by this check; buffers the workloads never cause to be allocated are invisible."),
  "C12": dict(level="exploration", ref="4/C12",
     technique="reference-codec monitor (independent RFC 6455/7692 implementation in internal/wsref): nbio sender -> reference decoder, reference encoder -> arbitrary segmentation -> nbio receiver, nbio <-> nbio",
     text="Messages of every length class, both roles, compression off and all levels, frame-size limits 1..32768, reference-side fragmentation with interleaved control frames and all single-cut/byte-wise/random segmentations are round-tripped; delivered (type,payload) sequences must equal the sent ones and the wire must obey masking/fragment-size/RSV1 rules.",
